@@ -362,7 +362,15 @@ Print Assumptions ref_reorder_contract.
    PROVED: the mirror only fails with ValueError (its fuel is never exhausted), an answer is a rearrangement of the
    family, and it is SOUND: in the answer, for every element the sets containing it are consecutive.
    NOT PROVED (pq_reorder_complete, the Booth-Lueker theorem for this variant): "Err ValueErr only if no arrangement
-   exists"; this half stays compared with the verified reference sets_decide / c1p_decide on bounded inputs. ---- *)
+   exists"; this half stays compared with the verified reference sets_decide / c1p_decide on bounded inputs.
+   Evidence for it beyond the correspondence: the completeness step "(C) a frontier of t in which the sets containing
+   v are consecutive is still a frontier of the tree returned by set_contiguous v t, and set_contiguous fails only if
+   t has no such frontier" was checked by exhaustive enumeration of the frontiers (Model/PQTree.v orders /
+   complete_step, op c05.pq_complete_chk) on 26 490 families of 3-6 sets (all families of 3-4 subsets of {0,1,2},
+   12 000 random ones over 4-5 elements, the quick contract-test corpus), at every element step, for every subtree
+   and for the second application: no exception.  A proof of (C) needs, in addition to the invariants used for
+   soundness, a "sets without v on both sides" invariant for the UNALIGNED status (with the case analysis of the
+   child-list reversal in Q.set_contiguous) and the converse of simplify_spec; it was not attempted. ---- *)
 Theorem pq_reorder_total : forall elems F,
   (exists res, pq_reorder elems F = Ok res) \/ pq_reorder elems F = Err ValueErr.
 Proof. exact Proofs.PQTree.pq_reorder_total. Qed.
